@@ -275,7 +275,7 @@ func (m *Model) Predict(u *universe, op Op) Pred {
 	switch op.K {
 	case "PushBlob":
 		data := u.Blobs[op.B]
-		d := descOf(mtOctet, data)
+		d := descOf(blobMT(op), data)
 		if op.Bad != "" || !validRepo {
 			var codes []string
 			if op.Bad == "digest" {
@@ -433,7 +433,7 @@ func (m *Model) Advance(u *universe, op Op, ok bool) {
 	case "PushBlob":
 		if ok {
 			data := u.Blobs[op.B]
-			m.repo(op.Repo, true).Blobs[sha256Digest(data)] = &mBlob{Data: data, MT: mtOctet}
+			m.repo(op.Repo, true).Blobs[sha256Digest(data)] = &mBlob{Data: data, MT: blobMT(op)}
 		}
 	case "PushManifest":
 		if !ok {
